@@ -28,7 +28,7 @@ func init() {
 		Doc: "Wake-up and back-pressure predicates are children-aware: every branch condition in a collection method that tests len(<section>.a) of a section stack (stackDirtyTop/Mid/Base/Clean) – " +
 			"the merger's sleep test, the persister's ping test, ExecuteBatch's back-pressure test – must also consult the stack's children (isEmpty / childSegStacks): a batch that only touches child " +
 			"collections adds nothing to top.a.",
-		Props: []string{"C20", "C16"},
+		Props: []string{"C20", "C16", "C11", "C04"},
 		Floor: 1,
 		Run:   ruleCov2,
 	})
